@@ -240,6 +240,12 @@ fn command_go(
         time = Some(Duration::from_millis(move_time));
     }
 
+    // Raise the flag before the timer thread exists, otherwise a timer that fires
+    // at once would be overwritten and nothing would ever stop the search
+    #[cfg(daniel729_chess_verif)]
+    crate::verif_hooks::point("main_raise_flag");
+    search_is_running.store(true, Relaxed);
+
     if let Some(time) = time {
         if !infinite {
             // Cut 5 ms from the time because sleep always takes more than given
@@ -268,9 +274,6 @@ fn command_go(
     }
 
     let thread = thread::spawn({
-        #[cfg(daniel729_chess_verif)]
-        crate::verif_hooks::point("main_raise_flag");
-        search_is_running.store(true, Relaxed);
         #[cfg(daniel729_chess_verif)]
         crate::verif_hooks::will_spawn();
         let data_mutex = data_mutex.clone();
